@@ -1,3 +1,539 @@
 package main
 
-func cmdCheck(args []string) {}
+import (
+	"crypto/sha256"
+	"encoding/json"
+	"flag"
+	"fmt"
+	"os"
+	"path/filepath"
+	"regexp"
+	"sort"
+	"strconv"
+	"strings"
+	"time"
+
+	"golang.org/x/tools/go/ssa"
+)
+
+type PropFunc struct {
+	Key    string   `json:"key"`
+	Kinds  []string `json:"kinds,omitempty"`  // obligation kinds to count (default all)
+	Labels []string `json:"labels,omitempty"` // substrings an obligation name must contain (any)
+	Note   string   `json:"note,omitempty"`
+}
+
+type PropSpec struct {
+	ID              string     `json:"id"`
+	Packages        []string   `json:"packages"`
+	Preludes        []string   `json:"preludes"`
+	Lemmas          []string   `json:"lemmas"`
+	Functions       []PropFunc `json:"functions"`
+	Level           string     `json:"level"`
+	TimeoutQuick    int        `json:"timeout_quick"`
+	TimeoutThorough int        `json:"timeout_thorough"`
+	Assumptions     []string   `json:"assumptions"`
+	Residual        []string   `json:"residual"`
+	Explanation     string     `json:"explanation"`
+	Extra           []string   `json:"extra_cmds"` // additional bounded stand-ins, run by the wrapper script
+}
+
+type KnownFinding struct {
+	Property   string `json:"property"`
+	Obligation string `json:"obligation"` // prefix of the obligation name
+	Site       string `json:"site"`
+	What       string `json:"what"`
+	Status     string `json:"status"` // open | fixed
+	Commit     string `json:"commit,omitempty"`
+}
+
+type failure struct {
+	Obl      *Obligation
+	Gen      *Gen
+	Reason   string // for tool-level failures (missing targets)
+	Name     string
+	Replay   string
+	Confirmed bool
+	Known    *KnownFinding
+}
+
+var retSuffix = regexp.MustCompile(`(:ret\d+|:b\d+|~\d+)+$`)
+
+func stableName(n string) string { return retSuffix.ReplaceAllString(n, "") }
+
+func cmdCheck(args []string) {
+	fs := flag.NewFlagSet("check", flag.ExitOnError)
+	fs.Parse(args)
+	if fs.NArg() < 1 {
+		fmt.Fprintln(os.Stderr, "usage: gocv check <PROPERTY> [quick|thorough]")
+		os.Exit(2)
+	}
+	prop := fs.Arg(0)
+	tier := "quick"
+	if fs.NArg() > 1 {
+		tier = fs.Arg(1)
+	}
+	if t := os.Getenv("VERIF_TIER"); t != "" && fs.NArg() < 2 {
+		tier = t
+	}
+	seed, _ := strconv.Atoi(os.Getenv("VERIF_SEED"))
+	verifDir := envOr("VERIF_DIR", "/verif")
+	repo := envOr("VERIF_REPO", "/repo")
+	start := time.Now()
+
+	var ps PropSpec
+	b, err := os.ReadFile(filepath.Join(verifDir, "props", prop+".json"))
+	if err != nil {
+		fmt.Fprintln(os.Stderr, "gocv:", err)
+		os.Exit(2)
+	}
+	if err := json.Unmarshal(b, &ps); err != nil {
+		fmt.Fprintln(os.Stderr, "gocv: props file:", err)
+		os.Exit(2)
+	}
+	timeout := ps.TimeoutQuick
+	if timeout == 0 {
+		timeout = 10
+	}
+	if tier == "thorough" {
+		timeout = ps.TimeoutThorough
+		if timeout == 0 {
+			timeout = 60
+		}
+	}
+	outDir := filepath.Join(verifDir, "out", prop)
+	os.RemoveAll(outDir)
+	os.MkdirAll(outDir, 0o755)
+	replayDir := filepath.Join(verifDir, "out", "replay", prop)
+	os.RemoveAll(replayDir)
+	os.MkdirAll(replayDir, 0o755)
+
+	e := NewEngine(repo, verifDir)
+	if err := e.Load(ps.Packages); err != nil {
+		// the tree does not build (or a contract file does not parse): a broken
+		// check, not a verdict about the property
+		fmt.Fprintln(os.Stderr, "gocv: load failed:", err)
+		os.Exit(2)
+	}
+	// preludes
+	var vcPre, recPre string
+	lemmaDefined := map[string]bool{}
+	for _, f := range ps.Preludes {
+		b, err := os.ReadFile(filepath.Join(verifDir, f))
+		if err != nil {
+			fmt.Fprintln(os.Stderr, "gocv:", err)
+			os.Exit(2)
+		}
+		pl, err := BuildPrelude(string(b))
+		if err != nil {
+			fmt.Fprintln(os.Stderr, "gocv: prelude", f, err)
+			os.Exit(2)
+		}
+		vcPre += pl.VCText + "\n"
+		recPre += pl.RecText + "\n"
+		for l := range pl.Lemmas {
+			lemmaDefined[l] = true
+		}
+	}
+
+	var fails []*failure
+	var gens []*Gen
+	var funcsEv []map[string]any
+	selected := map[*Obligation]bool{}
+
+	// lemma proofs
+	lemmaGen := &Gen{fnName: "lemmas"}
+	lemmaProved := map[string]bool{}
+	lemmaParts := map[string][]*Obligation{}
+	for _, lf := range ps.Lemmas {
+		b, err := os.ReadFile(filepath.Join(verifDir, lf))
+		if err != nil {
+			fmt.Fprintln(os.Stderr, "gocv:", err)
+			os.Exit(2)
+		}
+		for _, lp := range ParseLemmaFile(string(b)) {
+			o := &Obligation{Name: "lemma#" + lp.Name + ":" + lp.Part, Kind: "lemma", Fn: "lemmas", Src: "lemma " + lp.Name + " " + lp.Part + " (" + lf + ")"}
+			o.Formula = lp.Text
+			lemmaGen.obls = append(lemmaGen.obls, o)
+			lemmaParts[lp.Name] = append(lemmaParts[lp.Name], o)
+		}
+	}
+
+	for _, pf := range ps.Functions {
+		con, ok := e.contracts[pf.Key]
+		if !ok {
+			fails = append(fails, &failure{Name: pf.Key + "#contract", Reason: "no contract with key " + pf.Key + " (contract target missing)"})
+			continue
+		}
+		fn, err := e.FindFunc(con)
+		if err != nil {
+			fails = append(fails, &failure{Name: pf.Key + "#target", Reason: err.Error()})
+			continue
+		}
+		g, err := e.VerifyFunc(fn, con)
+		if err != nil {
+			fails = append(fails, &failure{Name: pf.Key + "#vcgen", Reason: err.Error()})
+			continue
+		}
+		gens = append(gens, g)
+		n := 0
+		for _, o := range g.obls {
+			if oblSelected(o, pf) {
+				selected[o] = true
+				n++
+			}
+		}
+		funcsEv = append(funcsEv, funcEvidence(e, fn, con, g, n))
+	}
+
+	// discharge: lemma blocks and function obligations
+	solveLemmas(lemmaGen, recPre, filepath.Join(outDir, "lemmas"), timeout)
+	// only solve selected obligations (plus covers)
+	for _, g := range gens {
+		var keep []*Obligation
+		for _, o := range g.obls {
+			if selected[o] {
+				keep = append(keep, o)
+			}
+		}
+		g.obls = keep
+	}
+	solveAll(gens, vcPre, outDir, timeout, 14)
+
+	// lemma status
+	for name, parts := range lemmaParts {
+		ok := true
+		for _, o := range parts {
+			if o.Result == nil || o.Result.Status != "unsat" {
+				ok = false
+			}
+		}
+		lemmaProved[name] = ok
+	}
+
+	known := loadKnownFindings(filepath.Join(verifDir, "known_findings.json"))
+	total, discharged := 0, 0
+	var perObl []map[string]any
+	solverTime := 0.0
+	bySolver := map[string]int{}
+	var samples []any
+	addObl := func(g *Gen, o *Obligation) {
+		total++
+		st := "none"
+		if o.Result != nil {
+			st = o.Result.Status
+			solverTime += o.Result.Time
+		}
+		ok := st == "unsat"
+		if o.Must == "sat" {
+			ok = st != "unsat" && st != "error"
+		}
+		if ok {
+			discharged++
+			if o.Result != nil {
+				bySolver[o.Result.Solver]++
+			}
+		} else {
+			fails = append(fails, &failure{Obl: o, Gen: g, Name: o.Name})
+		}
+		rec := map[string]any{"name": o.Name, "kind": o.Kind, "status": st, "clause": o.Src}
+		if o.Result != nil {
+			rec["solver"] = o.Result.Solver
+			rec["time_s"] = round3(o.Result.Time)
+		}
+		if o.Pos.IsValid() {
+			rec["at"] = fmt.Sprintf("%s:%d", shortFile(o.Pos.Filename), o.Pos.Line)
+		}
+		perObl = append(perObl, rec)
+	}
+	for _, o := range lemmaGen.obls {
+		addObl(lemmaGen, o)
+	}
+	// hints may only use lemmas that were proved in this run
+	for _, g := range gens {
+		for l := range g.lemmasUsed {
+			if !lemmaDefined[l] {
+				fails = append(fails, &failure{Name: g.fnName + "#hint:" + l, Reason: "hint uses undefined lemma " + l})
+			} else if !lemmaProved[l] {
+				fails = append(fails, &failure{Name: g.fnName + "#hint:" + l, Reason: "hint uses lemma " + l + " that has no successful proof in this run"})
+			}
+		}
+		for _, o := range g.obls {
+			addObl(g, o)
+		}
+	}
+	// samples: three obligations written out
+	for _, g := range gens {
+		for _, o := range g.obls {
+			if len(samples) < 3 && o.Kind != "cover" && o.Result != nil {
+				samples = append(samples, map[string]any{
+					"obligation": o.Name, "clause": o.Src, "guard": trunc(o.Guard, 200), "goal": trunc(o.Formula, 600),
+					"smt_file": o.Result.File, "status": o.Result.Status, "solver": o.Result.Solver,
+				})
+			}
+		}
+	}
+
+	// classify failures
+	violations := 0
+	var knownHit []string
+	var lines []string
+	for _, f := range fails {
+		for i := range known {
+			k := &known[i]
+			if k.Property == prop && k.Status == "open" && strings.HasPrefix(stableName(f.Name), k.Obligation) {
+				f.Known = k
+			}
+		}
+		if f.Known != nil {
+			msg := fmt.Sprintf("KNOWN-FINDING: property=%s %s %s", prop, f.Known.Obligation, f.Known.What)
+			if !contains(knownHit, msg) {
+				knownHit = append(knownHit, msg)
+				lines = append(lines, msg)
+			}
+			continue
+		}
+		violations++
+		path := writeReplay(replayDir, prop, f, e)
+		line := fmt.Sprintf("VIOLATION property=%s replay=%s", prop, path)
+		if !f.Confirmed {
+			line += " no-failing-input-found"
+		}
+		lines = append(lines, line)
+	}
+
+	// evidence
+	var assumptions []string
+	assumptions = append(assumptions, ps.Assumptions...)
+	absSet := map[string]bool{}
+	for _, g := range gens {
+		for _, a := range g.assumptions {
+			assumptions = appendUnique(assumptions, a)
+		}
+		for _, a := range g.abstracted {
+			absSet[g.fnName+": "+a] = true
+		}
+	}
+	assumptions = append(assumptions,
+		"machine integers are treated as mathematical integers (no overflow) except where a conversion narrows to an unsigned type",
+		"functions without a body in the loaded packages write at most shallowly through pointer/slice arguments; effect-free list in spec/effectfree.txt",
+		"no reflect/unsafe writes to unexported fields from outside their package",
+		"goroutine scheduling, channels and the memory model are outside the logic; Go/Send/Select/receive are havocked (listed under abstracted)")
+	for _, r := range ps.Residual {
+		assumptions = append(assumptions, "NOT DECIDED (residual): "+r)
+	}
+	level := ps.Level
+	if level == "" {
+		level = "proof"
+	}
+	cov := map[string]any{
+		"obligations":  total,
+		"discharged":   discharged,
+		"checker_cmd":  fmt.Sprintf("gocv check %s %s (VCs over go/ssa of /repo working tree; solvers raced: z3-new 5.1.0, z3 4.8.12, cvc5 1.0; timeout %ds)", prop, tier, timeout),
+		"trusted_base": []string{"go/ssa + go/types (x/tools v0.47.0) faithfully represent the compiled code", "gocv VC generator (mitigated by must-fail selftests and cover queries)", "SMT solvers z3-new/z3/cvc5 (an unsat from any one is accepted)", "trusted contracts in /verif/spec/*.vc and spec/effectfree.txt"},
+		"functions":    funcsEv,
+		"per_obligation": perObl,
+		"discharged_by_solver": bySolver,
+		"solver_time_s": round3(solverTime),
+		"samples":      samples,
+		"abstracted":   sortedKeys(absSet),
+		"known_findings_hit": knownHit,
+		"explanation":  ps.Explanation,
+		"residual_not_decided": ps.Residual,
+		"contract_files": e.contractFiles,
+	}
+	ev := map[string]any{
+		"property_id": prop, "tier": tier, "seed": seed, "level": level,
+		"coverage": cov, "assumptions": assumptions,
+		"wall_s": round3(time.Since(start).Seconds()), "violations": violations,
+	}
+	os.MkdirAll(filepath.Join(verifDir, "evidence"), 0o755)
+	eb, _ := json.MarshalIndent(ev, "", " ")
+	os.WriteFile(filepath.Join(verifDir, "evidence", prop+".json"), eb, 0o644)
+
+	fmt.Printf("gocv %s %s: %d obligations, %d discharged, %d known findings, %d violations, %.1fs\n", prop, tier, total, discharged, len(knownHit), violations, time.Since(start).Seconds())
+	for _, l := range lines {
+		fmt.Println(l)
+	}
+	if total == 0 {
+		fmt.Fprintln(os.Stderr, "gocv: no obligations generated (vacuous check)")
+		os.Exit(2)
+	}
+	if violations > 0 {
+		os.Exit(1)
+	}
+}
+
+func contains(l []string, s string) bool {
+	for _, x := range l {
+		if x == s {
+			return true
+		}
+	}
+	return false
+}
+
+func trunc(s string, n int) string {
+	if len(s) > n {
+		return s[:n] + "…"
+	}
+	return s
+}
+
+func round3(f float64) float64 {
+	return float64(int(f*1000+0.5)) / 1000
+}
+
+func oblSelected(o *Obligation, pf PropFunc) bool {
+	if o.Kind == "cover" {
+		return true
+	}
+	if len(pf.Kinds) > 0 {
+		ok := false
+		for _, k := range pf.Kinds {
+			if k == "*" || k == o.Kind || (k == "safety" && isSafetyKind(o.Kind)) {
+				ok = true
+			}
+		}
+		if !ok {
+			return false
+		}
+	}
+	if len(pf.Labels) > 0 {
+		ok := false
+		for _, l := range pf.Labels {
+			if strings.Contains(o.Name, l) {
+				ok = true
+			}
+		}
+		if !ok {
+			return false
+		}
+	}
+	return true
+}
+
+func isSafetyKind(k string) bool {
+	switch k {
+	case "bounds", "nil", "div", "assert", "panic", "mapwrite", "makeslice":
+		return true
+	}
+	return false
+}
+
+func funcEvidence(e *Engine, fn *ssa.Function, con *Contract, g *Gen, nObl int) map[string]any {
+	pos := e.fset.Position(fn.Pos())
+	m := map[string]any{
+		"function": g.fnName, "file": shortFile(pos.Filename), "line": pos.Line,
+		"obligations": nObl, "abstracted": g.abstracted,
+		"contract": fmt.Sprintf("%s:%d", shortFile(con.File), con.Line),
+	}
+	n := 0
+	for _, b := range fn.Blocks {
+		n += len(b.Instrs)
+	}
+	m["ssa_instructions"] = n
+	// hash of the function's source text
+	if syn := fn.Syntax(); syn != nil {
+		p0, p1 := e.fset.Position(syn.Pos()), e.fset.Position(syn.End())
+		if src, err := os.ReadFile(p0.Filename); err == nil && p1.Offset <= len(src) {
+			h := sha256.Sum256(src[p0.Offset:p1.Offset])
+			m["source_sha256"] = fmt.Sprintf("%x", h[:8])
+			m["span"] = fmt.Sprintf("%d-%d", p0.Line, p1.Line)
+		}
+	}
+	return m
+}
+
+func loadKnownFindings(path string) []KnownFinding {
+	b, err := os.ReadFile(path)
+	if err != nil {
+		return nil
+	}
+	var f struct {
+		Findings []KnownFinding `json:"findings"`
+	}
+	if err := json.Unmarshal(b, &f); err != nil {
+		fmt.Fprintln(os.Stderr, "gocv: known_findings.json:", err)
+		os.Exit(2)
+	}
+	return f.Findings
+}
+
+// solveLemmas discharges lemma proof blocks (Formula holds the block text).
+func solveLemmas(lg *Gen, recPrelude, outDir string, timeoutS int) {
+	os.MkdirAll(outDir, 0o755)
+	type res struct {
+		o *Obligation
+		r SolveResult
+	}
+	ch := make(chan res)
+	for _, o := range lg.obls {
+		go func(o *Obligation) {
+			file := filepath.Join(outDir, sanitize(o.Name)+".smt2")
+			os.WriteFile(file, []byte("(set-logic ALL)\n"+recPrelude+"\n"+o.Formula), 0o644)
+			ch <- res{o, discharge(file, timeoutS)}
+		}(o)
+	}
+	for range lg.obls {
+		x := <-ch
+		r := x.r
+		x.o.Result = &r
+	}
+	for _, o := range lg.obls {
+		o.Formula = "(lemma proof block)"
+	}
+	sort.Slice(lg.obls, func(i, j int) bool { return lg.obls[i].Name < lg.obls[j].Name })
+}
+
+// writeReplay writes the replay file for a failed obligation and tries to
+// confirm the solver's counterexample on the real code.
+func writeReplay(dir, prop string, f *failure, e *Engine) string {
+	path := filepath.Join(dir, sanitize(f.Name)+".json")
+	rec := map[string]any{"property": prop, "obligation": f.Name}
+	if f.Reason != "" {
+		rec["reason"] = f.Reason
+		rec["verdict"] = "the property can no longer be shown: " + f.Reason
+	}
+	if o := f.Obl; o != nil {
+		rec["kind"] = o.Kind
+		rec["clause"] = o.Src
+		if o.Pos.IsValid() {
+			rec["at"] = fmt.Sprintf("%s:%d", shortFile(o.Pos.Filename), o.Pos.Line)
+		}
+		if o.Result != nil {
+			rec["solver"] = o.Result.Solver
+			rec["solver_status"] = o.Result.Status
+			rec["solver_output"] = trunc(o.Result.Output, 4000)
+			rec["smt_file"] = o.Result.File
+			if o.Result.Model != "" {
+				rec["model"] = trunc(o.Result.Model, 20000)
+			}
+		}
+		if o.Result != nil && o.Result.Status == "sat" && f.Gen != nil && f.Gen.fn != nil {
+			rp := tryReplay(e, f, rec)
+			f.Confirmed = rp
+		}
+		if !f.Confirmed {
+			if _, ok := rec["replay"]; !ok {
+				rec["replay"] = map[string]any{"attempted": false, "why": "no concrete failing input could be constructed from the solver's answer (" + statusWhy(o) + ")"}
+			}
+		}
+	}
+	b, _ := json.MarshalIndent(rec, "", " ")
+	os.WriteFile(path, b, 0o644)
+	return path
+}
+
+func statusWhy(o *Obligation) string {
+	if o.Result == nil {
+		return "not solved"
+	}
+	switch o.Result.Status {
+	case "sat":
+		return "model found but no replay driver for this function"
+	case "unknown", "timeout":
+		return "solver answered " + o.Result.Status + "; quantified goals give no model"
+	}
+	return o.Result.Status
+}
